@@ -1,6 +1,9 @@
 """C10 - a failed proof leaves the facts untouched; undo frames are transactional (UndoFrames.tla, Backward.tla)."""
+import json
 import subprocess
 import common as c
+import backward_common as b
+from c09 import only
 
 
 def frames(ctx):
@@ -17,8 +20,18 @@ def frames(ctx):
 
 
 def run(ctx):
+    q = ctx.quick()
     frames(ctx)
-    ctx.cov["rule"] = ("undo frames: shortest path + one edge for every (state,op) of the TLC-dumped lock-step graph (snapshot stack x "
+    nfr = len(ctx.failures)
+    frame_fail = list(ctx.failures)
+    ctx.failures = []
+    b.l1(ctx)
+    b.graph(ctx, q)
+    b.traces(ctx, 3000 if q else 60000)
+    only(ctx, ["untouched"])
+    ctx.failures = frame_fail + ctx.failures
+    ctx.cov["rule"] = ("failed proofs: the Backward.tla query edges, simulated programs and recorded random programs of C09 (see there), "
+                       "checking `not provable => get_all_facts unchanged`; undo frames: shortest path + one edge for every (state,op) of the TLC-dumped lock-step graph (snapshot stack x "
                        "first-write logs) over 3 keys (scalars, an object with a nested field, absent), frame depth <=3, all op sequences "
                        "to the all-histories depth, seeded walks and TLC-simulated behaviours of 10 ops on a real Facts; get_all_facts, "
                        "get, contains, count and the Ok/Err of set_nested compared after every op")
@@ -27,5 +40,9 @@ def run(ctx):
 
 
 def replay(ctx, path):
-    p = subprocess.run([c.VH, "replay-one", "undo", path])
+    f = json.load(open(path))
+    if f.get("model") == "backward-trace":
+        print(json.dumps(f["actual"]))
+        return 1
+    p = subprocess.run([c.VH, "replay-one", f.get("model", "undo"), path])
     return 1 if p.returncode == 1 else (0 if p.returncode == 0 else 2)
